@@ -203,9 +203,12 @@ def main(argv=None):
         for fn, cfg, ob in undecided[:10]:
             lines.append("UNDECIDED property=%s %s %s cfg=%s (solver returned unknown within budget)" % (prop, fn, ob["name"], verify._cfg_repr(cfg)))
     if broken or canary_fail or n_total == 0:
-        rc = 3
+        # a violation stays a violation (a deliberately wrong clause may well become true of changed code);
+        # without one, a failed self-check means the run decides nothing
+        if rc != 1:
+            rc = 3
         for b in (broken + canary_fail)[:20]:
-            lines.append("CHECKER-BROKEN property=%s %s" % (prop, b))
+            lines.append("%s property=%s %s" % ("CHECKER-BROKEN" if rc == 3 else "NOTE self-check", prop, b))
         if n_total == 0:
             lines.append("CHECKER-BROKEN property=%s zero obligations generated" % prop)
 
